@@ -124,6 +124,9 @@ class Gen:
                     n = self.r.choice(ENTITY_NAMES)
                     ps = self.pieces(allow_ent=True, lo=0, hi=3)
                     ps = [p for p in ps if not (p[0] == "t" and "%" in p[1])]
+                    # a character reference to '<' or '&' in an entity VALUE is expanded when the declaration is read, so the
+                    # replacement text would hold markup characters and a reference to the entity would not be well-formed
+                    ps = [p for p in ps if not (p[0] == "c" and int(p[1], p[2]) in (60, 38))]
                     items.append(("Y", n, "i", ps))
                     if n not in self.entities:
                         self.entities.append(n)
